@@ -616,3 +616,42 @@ func (c *Ctx) constArray(idxSort, elemSort string, val Term) Term {
 	}
 	return name
 }
+
+// boxFn returns the name of the injection of Go type t into interface values,
+// declaring it (with its inverse and the dynamic-type tag) on first use.
+func (c *Ctx) boxFn(t types.Type) string {
+	key := typeKey(t)
+	fn := "box_" + sanitize(key)
+	if len(fn) > 80 {
+		fn = fmt.Sprintf("box_t%d", c.typeTag(key))
+	}
+	if !c.declared[fn] {
+		c.declared[fn] = true
+		s := c.sortOf(t)
+		tag := c.typeTag(key)
+		c.emit(fmt.Sprintf("(declare-fun %s (%s) Iface)", fn, s))
+		c.emit(fmt.Sprintf("(declare-fun un%s (Iface) %s)", fn, s))
+		c.emit(fmt.Sprintf("(assert (forall ((v %s)) (! (and (= (un%s (%s v)) v) (= (dynType (%s v)) %d) (not (= (%s v) nilI))) :pattern ((%s v)))))", s, fn, fn, fn, tag, fn, fn))
+		c.emit(fmt.Sprintf("(assert (forall ((x Iface)) (! (=> (= (dynType x) %d) (= (%s (un%s x)) x)) :pattern ((un%s x)))))", tag, fn, fn, fn))
+	}
+	return fn
+}
+
+// fieldPtrFn returns the function mapping an object reference to the address
+// of one of its fields; distinct fields yield distinct, non-null addresses.
+func (c *Ctx) fieldPtrFn(name string, idxSorts []string) string {
+	if !c.declared[name] {
+		c.declared[name] = true
+		if !c.declared["fpid"] {
+			c.declared["fpid"] = true
+			c.emit("(declare-fun fpid (Ref) Int)")
+			c.emit("(declare-fun fpbase (Ref) Ref)")
+		}
+		c.emit(fmt.Sprintf("(declare-fun %s (%s) Ref)", name, strings.Join(idxSorts, " ")))
+		if len(idxSorts) == 1 {
+			id := c.typeTag("fp:" + name)
+			c.emit(fmt.Sprintf("(assert (forall ((r Ref)) (! (and (= (fpid (%s r)) %d) (= (fpbase (%s r)) r) (not (= (%s r) null))) :pattern ((%s r)))))", name, id, name, name, name))
+		}
+	}
+	return name
+}
